@@ -199,7 +199,9 @@ func c02Check(c C02Case, cx *h.Ctx) *h.Failure {
 	A, B := c.A.ToGeom(), c.B.ToGeom()
 	strict := pairStrict(ar)
 	desc := func() string { return fmt.Sprintf("\nA = %s\nB = %s", c.A, c.B) }
-	got, err := geom.Relate(A, B)
+	var got string
+	var err error
+	h.Lib("Relate", func() { got, err = geom.Relate(A, B) })
 	if !strict {
 		cx.Skip("sub_tolerance_pair")
 		return nil
